@@ -26,6 +26,10 @@ class AppError(Exception):
     pass
 
 
+STRUCT_EXC = [lambda: KeyError((2, 3)), lambda: LookupError("empty cells", {(7, 7)}), lambda: ValueError([1, (2, 3)], {"k": (1, 2)}), lambda: KeyError(frozenset([1])),
+              lambda: IndexError((), [], {}), lambda: ValueError(("nested", ("deeper", (1,)))), lambda: RuntimeError(b"bytes", 2 ** 70, 1.5, None, True)]
+
+
 def register_converters(P):
     SB = P.serializers.SerializerBase
     SB.register_class_to_dict(AppError, lambda e: {"__class__": "c11.AppError", "args": list(e.args)})
@@ -75,6 +79,11 @@ def make_ref_class(P):
             self.calls += 1
             raise P.errors.NamingError(msg)
 
+        def fail_struct(self, i):
+            # exceptions whose arguments are containers: they reach the caller the same way from a batch as from a single call
+            self.calls += 1
+            raise STRUCT_EXC[i % len(STRUCT_EXC)]()
+
         def fail_app(self, msg):
             self.calls += 1
             raise AppError(msg, self.calls)
@@ -106,8 +115,8 @@ def gen_calls(r, n, fail_at):
     calls = []
     for i in range(n):
         if i == fail_at:
-            k = r.randrange(9)
-            calls.append([("fail_app", ("app%d" % i,), {}), ("fail_value", ("boom%d" % i,), {}), ("fail_pyro", ("naming%d" % i,), {}), ("get", ("missing%d" % i,), {}), ("inc", ("notanumber",), {}),
+            k = r.randrange(12)
+            calls.append([("fail_struct", (r.randrange(7),), {}), ("fail_struct", (r.randrange(7),), {}), ("fail_struct", (r.randrange(7),), {}), ("fail_app", ("app%d" % i,), {}), ("fail_value", ("boom%d" % i,), {}), ("fail_pyro", ("naming%d" % i,), {}), ("get", ("missing%d" % i,), {}), ("inc", ("notanumber",), {}),
                           ("hidden", (1,), {}), ("_priv", (), {}), ("doesnotexist", (1, 2), {}), ("append", (), {})][k])
             continue
         k = r.randrange(7)
